@@ -39,6 +39,7 @@ pub fn prop() -> Prop {
         independent: &[],
         ref_sample: |_| 0,
         required_probes: &["ep_generate_with_dealer", "ep_split", "ep_dkg_part1", "ep_compute_refreshing_shares", "ep_refresh_dkg_part1", "ep_repair_share_part1", "ep_new_from_commitments", "ep_signing_key_new", "ep_signing_key_sign", "ep_batch_verify", "t_ge_4"],
+        prepare: None,
     }
 }
 
